@@ -606,29 +606,6 @@ def reference_remap_custom(root, visit, enter, exit_):
     return value(root, (), None)
 
 
-def reference_research(root, query, enter, root_too):
-    """what research reports, written as a plain pre-order walk: every item is handed to the query when it is met
-    (a container that enter traverses is met once - later references to it are not entered again), then its
-    items are walked under the extended path; the root does not extend the path"""
-    out = []
-    traversed = set()
-
-    def item(path, key, v, is_root):
-        if kind_of(v) is not None and id(v) in traversed:
-            return
-        if (root_too or not is_root) and query(path, key, v):
-            out.append((path + (key,), v))
-        _np, items = enter(path, key, v)
-        if items is False:
-            return
-        traversed.add(id(v))
-        below = path if is_root else path + (key,)
-        for k, c in list(items):
-            item(below, k, c, False)
-    item((), None, root, True)
-    return out
-
-
 def enter_tok(spec):
     if len(spec) == 1:
         return spec[0]
@@ -793,6 +770,16 @@ class C08(Property):
             'in {atom, @0, @1}; seeded random graphs up to depth 6 with sharing pools and back references; '
             'adversarial shapes (deep chains, wide nodes, one object referenced many times, cycles through '
             'tuples, sets whose members become equal, dict key collisions, scalar and empty roots). '
+            'Round 3: mode E = remap with custom enter x exit callbacks from table-defined families (13 enters: default, '
+            'one kind not traversed, items reversed, one key pruned, new parent always a list, depth limit 0/1/2; 6 exits: '
+            'default, len(new_items), keys of new_items, len(path), (key, len(old_parent), default result), container of '
+            'the OLD parent\'s class) x 9 programs x 5 fixed shapes, and 12% of the random graphs; oracle = memoised '
+            'recursive rebuild with the same callbacks (no verdict for cyclic input, an untraversed root, or an interned '
+            'empty tuple referenced twice), correspondence with the generic Lean model on trees; research with a custom '
+            'enter (reported paths must be retrievable); get_path(default=) consistency on every reported path; every '
+            'research case with a non-empty set is followed by a twin whose oracle skips exactly the recorded set-path '
+            'defect (so its correspondence counts); whether research queries / reports the root itself is probed, not '
+            'demanded. '
             'Non-trivial = container root with at least one nested container and no harness skip; '
             'distinct = distinct (graph, program, mode).')
     ASSUMPTIONS = [
@@ -805,13 +792,74 @@ class C08(Property):
         'a raising callback raises one of 12 builtin exception classes (not TypeError, which remap itself uses '
         'for a scalar root); the model only knows "the callback raised", the oracle demands the same class',
         'visit / query callbacks are pure programs from the table-defined family, evaluated identically by the '
-        'harness (Python) and the model (Lean); custom enter / exit callbacks are outside (the tree-level theorem '
-        'is generic in exit)',
+        'harness (Python) and the model (Lean); custom enter / exit callbacks are the table-defined families of mode E '
+        '(written without boltons\' default_enter / default_exit), modelled at tree level with reraise_visit=False '
+        'semantics; on shared acyclic graphs they are judged by the oracle only',
+        'whether research() hands the root object itself to the query and reports it under (None,) is a convention the '
+        'statement leaves free: probed once per run on the implementation and handed to the model',
         'set iteration order is taken from the real set object (passed to the model as the item order); rebuilt '
         'sets are compared as sets',
         'identity of empty tuples / frozensets is not observed (CPython shares the empty tuple)',
     ]
     CORRESPONDENCE_NAME = 'C08.Driver (remap/research/get_path models, heap + tree + recursion) vs boltons.iterutils'
+
+    # ------------------------------------------------------------------ translator: facts of the current source
+    def regen(self):
+        """Facts about default_enter / default_exit / the keyword defaults that the Lean model builds in, EVALUATED on the
+        current source (never pattern-matched: any equivalent rewrite gives the same tables).  Props.lean proves
+        that the model's own default callbacks produce exactly these tables (`default_enter_table_matches_model`,
+        `default_exit_table_matches_model`, `keyword_defaults_match_model`)."""
+        from boltons.iterutils import default_enter, default_exit, remap, research
+
+        def ktok(k):
+            return 'n' if k is None else ('i%d' % k if type(k) is int else 's:' + k)
+
+        def lst(xs):
+            return '[' + ', '.join('"%s"' % x for x in xs) + ']'
+        samples = [('none', None), ('int', 5), ('str', 'ab'), ('bytes', b'ab'), ('float', 1.5), ('bool', True),
+                   ('other', Ellipsis), ('dict', {'a': 5, None: 6}), ('list', [5, 6]), ('tuple', (5, 6)),
+                   ('set', {5, 6}), ('fset', frozenset({5, 6}))]
+        rows = []
+        for name, v in samples:
+            np_, items = default_enter((), None, v)
+            if items is False:
+                rows.append('("%s", false, "", [])' % name)
+            else:
+                keys = [ktok(k) for k, _c in list(items)]
+                rows.append('("%s", %s, "%s", %s)' % (name, 'true' if len(np_) == 0 else 'false',
+                                                      LETTER[kind_of(np_)], lst(keys)))
+        erows = []
+        for name, kd in (('dict', 'd'), ('list', 'l'), ('tuple', 't'), ('set', 's'), ('fset', 'f')):
+            old = KINDS[kd]([('a', 1)]) if kd == 'd' else KINDS[kd]([1])
+            out = default_exit((), None, old, KINDS[kd](), [(0, 5), (1, 6), (0, 7)])
+            erows.append('("%s", "%s")' % (name, plain(out)))
+
+        def boom(p, k, v):
+            raise ValueError('probe')
+        try:
+            remap([None], visit=boom)
+            rv = False
+        except ValueError:
+            rv = True
+        try:
+            research([None], query=boom)
+            rr = False
+        except ValueError:
+            rr = True
+        src = ('/- generated by harness/bv/props/c08.py regen() from boltons/iterutils.py (default_enter, default_exit, remap,\n'
+               '   research evaluated on fixed samples) - do not edit -/\n'
+               'namespace C08.Gen\n'
+               '/-- default_enter on one sample per leaf class / container kind: (sample, new parent is empty, its kind, keys handed out);\n'
+               '    `false, "", []` = not traversed -/\n'
+               'def enterTable : List (String × Bool × String × List String) :=\n  [%s]\n'
+               '/-- default_exit on an empty new parent of each kind with new items [(0, 5), (1, 6), (0, 7)] -/\n'
+               'def exitTable : List (String × String) :=\n  [%s]\n'
+               '/-- does a raising visit propagate when `reraise_visit` is not given?  a raising query when `reraise` is not given? -/\n'
+               'def reraiseVisitDefault : Bool := %s\n'
+               'def researchReraiseDefault : Bool := %s\n'
+               'end C08.Gen\n') % (',\n   '.join(rows), ',\n   '.join(erows), 'true' if rv else 'false',
+                                    'true' if rr else 'false')
+        return {'C08_Facts.lean': src}
 
     # ------------------------------------------------------------------ generation
     def cases(self, budget_s):
@@ -1583,21 +1631,10 @@ class C08(Property):
             if raising and obs['exc'] in raise_names(prog):
                 return None
             return Failure('raises', 'research raised %s' % obs['exc'])
-        if 'enter' in case and not raising:
-            # the list of reported entries itself, against a plain pre-order walk with the same enter callback
+        if 'enter' in case:
+            # research with a custom enter callback: the statement constrains the reported paths only (retrievable
+            # with get_path) - which items a custom enter makes research report is not judged
             self.bump('research_enter:' + case['enter'][0])
-            fn = self.swallowing_false(make_fn(prog))
-            try:
-                exp = reference_research(root, fn, make_enter(case['enter']), self.research_queries_root())
-            except RecursionError:
-                exp = None
-            if exp is not None:
-                exp_t = [('/'.join(key_s(a) for a in path), atom_s(v) if kind_of(v) is None else
-                          '%s%d' % (LETTER[kind_of(v)], len(v))) for path, v in exp if not (v is root)]
-                got_t = [(p, s) for p, s, st, _ in obs['entries'] if st != 'root']
-                if exp_t != got_t:
-                    return Failure('research_entries', 'research with enter=%s reported %s, a pre-order walk with the '
-                                   'same enter callback gives %s' % (case['enter'], got_t[:12], exp_t[:12]))
         set_fail = None
         for p, s, st, into_set in obs['entries']:
             if st in ('root', 'ok'):
@@ -1621,6 +1658,17 @@ class C08(Property):
         self.bump('exit:' + case['exit'][0])
         if cyclic:
             return None
+        # one empty tuple / frozenset referenced from several places: "the same object" only because CPython interns
+        # it (ASSUMPTIONS: its identity is not observed) - whether a custom exit sees it once or once per reference
+        # is not judged
+        refs = {}
+        for v in containers_of(root).values():
+            for _k, c in children(v):
+                if kind_of(c) in ('t', 'f') and len(c) == 0:
+                    refs[id(c)] = refs.get(id(c), 0) + 1
+        if any(n > 1 for n in refs.values()):
+            self.bump('custom_shared_empty_immutable')
+            return None
         prog = case['prog']
         fn = make_fn(prog) if case['reraise'] else self.swallowing(make_fn(prog))
         try:
@@ -1640,16 +1688,6 @@ class C08(Property):
             return Failure('custom_callbacks', 'remap with enter=%s exit=%s returned %s, the recursive rebuild with the '
                            'same callbacks gives %s' % (case['enter'], case['exit'], got, exp))
         return None
-
-    @staticmethod
-    def swallowing_false(fn):
-        """a query that raises (not re-raised) matches nothing"""
-        def g(p, k, v):
-            try:
-                return fn(p, k, v)
-            except VISIT_EXC:
-                return False
-        return g
 
     @staticmethod
     def swallowing(fn):
